@@ -370,3 +370,38 @@ Section Delete.
     rewrite serialize_delete in Hm. inversion Hm. exists pth, dom. repeat split; reflexivity.
   Qed.
 End Delete.
+
+(* ------------------------------------------------------------------ merge_cookies onto a plain WSGI application *)
+Lemma filter_idem : forall (A : Type) (f : A -> bool) l, filter f (filter f l) = filter f l.
+Proof.
+  intros A f l. induction l as [|x l IH]; [reflexivity|]. cbn [filter]. destruct (f x) eqn:E; [|exact IH].
+  cbn [filter]. rewrite E, IH. reflexivity.
+Qed.
+
+Lemma filter_neg_nil : forall (A : Type) (f : A -> bool) l, filter (fun x => negb (f x)) (filter f l) = [].
+Proof.
+  intros A f l. induction l as [|x l IH]; [reflexivity|]. cbn [filter]. destruct (f x) eqn:E; [|exact IH].
+  cbn [filter]. rewrite E. exact IH.
+Qed.
+
+(* every answer of the wrapped application carries the application's own headers followed by this response's
+   Set-Cookie headers, once; the answer is a function of the application's headers alone (no state is kept, and the
+   application's own list is not an output of the model: it cannot change) *)
+Theorem merge_app_spec : forall self apph, last_cookie_line self <> Some [] ->
+  cookie_lines (wrapped_answer (merge_app_headers self) apph) = cookie_lines apph ++ cookie_lines self /\
+  other_headers (wrapped_answer (merge_app_headers self) apph) = other_headers apph /\
+  exists extra, wrapped_answer (merge_app_headers self) apph = apph ++ extra.
+Proof.
+  intros self apph Hne. unfold merge_app_headers, wrapped_answer.
+  unfold last_cookie_line in *.
+  destruct (rev (cookie_lines self)) as [|l ls] eqn:Hr.
+  - assert (Hs : cookie_lines self = []).
+    { rewrite <- (rev_involutive (cookie_lines self)), Hr. reflexivity. }
+    rewrite Hs, app_nil_r. repeat split; try reflexivity. exists []. symmetry. apply app_nil_r.
+  - destruct l as [|c l]; [exfalso; apply Hne; reflexivity|].
+    repeat split.
+    + unfold cookie_lines. rewrite filter_app, map_app, filter_idem. reflexivity.
+    + unfold other_headers. rewrite filter_app.
+      rewrite (filter_neg_nil _ (fun kv : str * str => is_set_cookie (fst kv)) self). apply app_nil_r.
+    + eexists. reflexivity.
+Qed.
